@@ -29,21 +29,22 @@ Theorem C03_k2_histories_refused :
 Proof. split; [exact k2_choice_refused|]. split; [exact k2_reserve_refused|exact k2_other_choice_accepted]. Qed.
 Print Assumptions C03_k2_histories_refused.
 
-(* "... so every CPU-pinned container always has a non-empty allowed CPU set" (proved part): on the same
-   guarded histories, a container of the normal CPU class that holds exclusive CPUs or a positive
-   shared portion is told a non-empty cpuset. *)
-Theorem C03_nonempty_cpuset_partial : forall t os s cid g, tree_wfb2 t = true -> run_g t (init t) os = Ok s ->
+(* "... so every CPU-pinned container always has a non-empty allowed CPU set" (proved part): for every history,
+   a container of the normal CPU class that holds exclusive CPUs or a positive shared portion is told a non-empty
+   cpuset. *)
+Theorem C03_nonempty_cpuset_partial : forall t os s cid g, tree_wfb2 t = true -> forallb nonneg_reserve os = true ->
+  run t (init t) os = Ok s ->
   grants s !! cid = Some g -> g_type g = CpuNormal -> (g_pool g < length t)%nat ->
   g_excl g <> ∅ \/ 0 < g_portion g -> told_cpus t s g <> ∅.
-Proof. exact told_nonempty. Qed.
+Proof. exact told_nonempty_all. Qed.
 Print Assumptions C03_nonempty_cpuset_partial.
 
 (* ... and it is still false for zero-request containers: AllocateCPU tests nothing for a request without CPUs, so a
    BestEffort container can be placed in a pool whose sharable CPUs were all taken exclusively at the pool above while
    it was empty (known finding K10; the reinstatement variant of it is refused now: k10_reserve_refused). *)
 Theorem C03_nonempty_cpuset_refuted :
-  tree_wfb2 k10a_tree = true /\
-  match run_g k10a_tree (init k10a_tree) k10a_ops with
+  tree_wfb2 k10a_tree = true /\ forallb nonneg_reserve k10a_ops = true /\
+  match run k10a_tree (init k10a_tree) k10a_ops with
   | Ok s => bool_decide (told_cpus k10a_tree s {| g_pool := 0; g_excl := ∅; g_type := CpuNormal; g_portion := 0 |} = ∅) = true
   | Err _ => False end.
 Proof. exact nonempty_refuted. Qed.
